@@ -4,6 +4,7 @@ import (
 	"context"
 	"errors"
 	"fmt"
+	modOs "github.com/risor-io/risor/modules/os"
 	"strings"
 	"sync/atomic"
 	"time"
@@ -29,6 +30,7 @@ type blockGen struct {
 	Defers  int
 	Depth   int
 	Shapes  []string
+	Stdin   bool
 }
 
 func (bg *blockGen) fresh(prefix string) string {
@@ -39,9 +41,9 @@ func (bg *blockGen) fresh(prefix string) string {
 // leaf returns statements that never terminate on their own (or block for a
 // simulated hour at a time). allowSpawn limits thread-in-leaf nesting.
 func (bg *blockGen) leaf(allowSpawn bool) string {
-	n := 16
+	n := 17
 	if !allowSpawn {
-		n = 15
+		n = 16
 	}
 	k := bg.g.Intn(n)
 	if allowSpawn && bg.g.Chance(1, 12) {
@@ -73,6 +75,13 @@ func (bg *blockGen) leaf(allowSpawn bool) string {
 		fmt.Fprintf(&bg.prelude, "%s := chan()\n", c)
 		bg.Shapes = append(bg.Shapes, "drain-builtin")
 		return fmt.Sprintf("%s(%s)", []string{"list", "set", "all", "list"}[bg.g.Intn(4)], c)
+	case 15:
+		// reads of a standard input nobody writes to: only the close that
+		// follows the end of the context releases them
+		bg.Shapes = append(bg.Shapes, "stdin-read")
+		bg.Stdin = true
+		return fmt.Sprintf("for { try(func() { %s }, func(e) { return 0 }); tick() }",
+			[]string{"os.stdin.read()", "os.stdin.read_lines()", "for _, line := range os.stdin { tick() }", "list(os.stdin)", "sin := os.stdin; sin.read(); sin.read()"}[bg.g.Intn(5)])
 	case 13:
 		bg.Shapes = append(bg.Shapes, "sleep-short")
 		return "for { time.sleep(0.05); tick() }"
@@ -225,6 +234,7 @@ type blockProg struct {
 	Defers        int
 	Depth         int
 	Shapes        []string
+	Stdin         bool // the program reads the (blocking) standard input
 }
 
 func genBlock(g *sim.Stream) *blockProg {
@@ -282,6 +292,7 @@ func genBlock(g *sim.Stream) *blockProg {
 	p.Defers = bg.Defers
 	p.Depth = bg.Depth
 	p.Shapes = bg.Shapes
+	p.Stdin = bg.Stdin
 	return p
 }
 
@@ -293,10 +304,10 @@ func init() {
 		Name:     "cancel-everything",
 		Run:      runC06,
 		Level:    "exploration",
-		Rule: "one run = one generated non-terminating/blocking program (busy loops, recursion, blocked channel ops, sleeps, waits, range over open channel; inside map/filter/each/sorted/try/defer/deep calls; goroutine trees to depth 3) " +
+		Rule: "one run = one generated non-terminating/blocking program (busy loops, recursion, blocked channel ops, sleeps, waits, range over open channel, reads of a standard input nobody writes to; inside map/filter/each/sorted/try/defer/deep calls; goroutine trees to depth 3) " +
 			"with one cancellation (explicit cancel at a tape-chosen scheduler step, or a deadline reached by clock-advance events / idle clock jumps) under one seeded schedule, then a fair schedule for the bounded-liveness oracle; " +
 			"non-trivial = the cancel fired while at least one script task was alive; distinct = distinct hash of the (task, site, event) sequence",
-		Real: []string{"risor.Eval / risor.Call / risor.EvalCode(WithVM) / vm.Clone+Call", "modules/filepath walk_dir, builtins call", "vm (eval loop, start/stop, watcher goroutine, Clone, cloneCallAsync)", "object.Chan", "object.Thread", "modules/time sleep", "object.List map/filter/each", "builtins sorted/try/spawn", "context (real, on the bubble's fake clock)"},
+		Real: []string{"risor.Eval / risor.Call / risor.EvalCode(WithVM) / vm.Clone+Call", "modules/filepath walk_dir, builtins call", "modules/os stdin + object.File (read, read_lines, iteration) over a blocking simulated stream", "vm (eval loop, start/stop, watcher goroutine, Clone, cloneCallAsync)", "object.Chan", "object.Thread", "modules/time sleep", "object.List map/filter/each", "builtins sorted/try/spawn", "context (real, on the bubble's fake clock)"},
 		Stub: []string{"scheduler (sim)", "host builtin tick"},
 		Assumptions: []string{
 			"liveness bound B = (2000 + 16*(max call depth + defers + live tasks at the cancel instant)) scheduler steps per live task under round-robin scheduling; it is deliberately loose (the failure looked for is 'never')",
@@ -348,6 +359,11 @@ func runC06(rc *fw.RunCtx) {
 	sos.MkdirAll("/data/sub", 0o755)
 	sos.WriteFile("/data/a.txt", []byte("a"), 0o644)
 	sos.WriteFile("/data/sub/b.txt", []byte("b"), 0o644)
+	if prog.Stdin {
+		sos.SetBlockingStdin([]string{"", "one line\n", "a\nb"}[g.Intn(3)])
+		extra["os"] = modOs.Module()
+		opts = baseOpts(extra)
+	}
 	opts = append(opts, risor.WithOS(sos))
 
 	var ctx context.Context
